@@ -147,6 +147,40 @@ func splitIndex(t vt.TB, mm *gostatsd.MetricMap, n int) map[model.Key]int {
 	return out
 }
 
+// reorderTags permutes the Tags slice of every series in place (the map keys are untouched).
+func reorderTags(t *rapid.T, mm *gostatsd.MetricMap) {
+	shuffle := func(tags gostatsd.Tags) gostatsd.Tags {
+		if len(tags) < 2 {
+			return tags
+		}
+		return gostatsd.Tags(rapid.Permutation([]string(tags)).Draw(t, "tag-order"))
+	}
+	for _, m := range mm.Counters {
+		for k, v := range m {
+			v.Tags = shuffle(v.Tags)
+			m[k] = v
+		}
+	}
+	for _, m := range mm.Gauges {
+		for k, v := range m {
+			v.Tags = shuffle(v.Tags)
+			m[k] = v
+		}
+	}
+	for _, m := range mm.Timers {
+		for k, v := range m {
+			v.Tags = shuffle(v.Tags)
+			m[k] = v
+		}
+	}
+	for _, m := range mm.Sets {
+		for k, v := range m {
+			v.Tags = shuffle(v.Tags)
+			m[k] = v
+		}
+	}
+}
+
 func TestSplitPartition(t *testing.T) {
 	rapid.Check(t, func(t *rapid.T) {
 		ts := rapid.Int64Range(1, 5)
@@ -158,7 +192,11 @@ func TestSplitPartition(t *testing.T) {
 
 		// determinism by identity only: another insertion order, other values/timestamps, a different batch.
 		perm := rapid.Permutation(ms).Draw(t, "perm")
-		idx2 := splitIndex(t, gen.MapFromMetrics(perm), n)
+		mm2 := gen.MapFromMetrics(perm)
+		// the order of the tags stored with a series is not part of its identity (maps decoded from the HTTP
+		// ingestion endpoint carry the tags in whatever order the sender used)
+		reorderTags(t, mm2)
+		idx2 := splitIndex(t, mm2, n)
 		for k, i := range idx {
 			if j, ok := idx2[k]; !ok || i != j {
 				vt.Fail(t, "C06:order-dependent", "series %v: part %d, after re-inserting in another order part %d (present=%v)", k, i, j, ok)
